@@ -61,6 +61,39 @@ class UserDict:
 '''
 
 
+GYM_PRELUDE = '''
+class Env:
+    pass
+
+
+class Wrapper(Env):
+    def __init__(self, env):
+        self.env = env
+'''
+
+GYM_SPACES_PRELUDE = '''
+class Space:
+    pass
+
+
+class Discrete(Space):
+    def __init__(self, n):
+        self.n = n
+
+
+class Dict(Space):
+    def __init__(self, spaces):
+        self.spaces = spaces
+
+
+class Box(Space):
+    def __init__(self, low, high, dtype=None):
+        self.low = low
+        self.high = high
+        self.dtype = dtype
+'''
+
+
 class BuiltinType:
     def __init__(self, name):
         self.name = name
@@ -183,6 +216,30 @@ class LibMixin:
         rm.ns['Generator'] = BuiltinType('Generator')
         self.stub_modules['numpy.random'] = rm
         nm.ns['random'] = rm
+        # gym (interpreted prelude: only what gym_gridverse/gym.py touches; part of the trusted base T3)
+        gm = ModuleModel('gym')
+        gs = ModuleModel('gym.spaces')
+        gu = ModuleModel('gym.utils')
+        env = Env(module=gs)
+        env.vars = gs.ns
+        self.func_stack.append('<module gym.spaces>')
+        self.exec_block(ast.parse(GYM_SPACES_PRELUDE).body, env)
+        self.func_stack.pop()
+        env = Env(module=gm)
+        env.vars = gm.ns
+        self.func_stack.append('<module gym>')
+        self.exec_block(ast.parse(GYM_PRELUDE).body, env)
+        self.func_stack.pop()
+        gm.ns['spaces'] = gs
+        gm.ns['utils'] = gu
+        gm.ns['register'] = Builtin('gym.register', lambda I, a, k: None)
+        seeding = ModuleModel('gym.utils.seeding')
+        seeding.ns['create_seed'] = Builtin('create_seed', lambda I, a, k: a[0] if a else k.get('a'))
+        gu.ns['seeding'] = seeding
+        self.stub_modules['gym'] = gm
+        self.stub_modules['gym.spaces'] = gs
+        self.stub_modules['gym.utils'] = gu
+        self.stub_modules['gym.utils.seeding'] = seeding
         pk = ModuleModel('pickle')
         pk.opaque = True
         self.stub_modules['pickle'] = pk
